@@ -355,6 +355,14 @@ func runC03(c *Ctx) {
 				}
 			}
 		}
+		if res.Final != "complete" && strings.Contains(res.ErrMsg, "file name too long: the journal file names") {
+			// a map key so long that the journal file names of the job would exceed NAME_MAX: since fix
+			// 6774329 the job is refused at launch with this message (before it, it was never heard
+			// from).  A refusal by design of an input outside the supported domain (C11 states the
+			// bound: mapForkDir_fits / journal_name_fits), not a skipped job of a failure-free run.
+			r.hist("refused_by_design:journal-name-too-long")
+			continue
+		}
 		if res.Final != "complete" {
 			// a run without failures in which the pipestance does not complete has skipped the rest of its jobs
 			r.violate(Violation{Kind: "property", Key: "C03:not-completed:" + classifyRuntimeError(res.Final, res.ErrMsg),
